@@ -351,7 +351,7 @@ def cases(tier):
             cs.append(Case(f"{which}:piece{i}", h_polygamma, dict(which=which, piece=pc)))
     cs.append(Case("betaln", h_betaln, {}))
     cs.append(Case("mom", h_mom, {}))
-    for k in ((0, 1) if tier == "quick" else (0, 1, 2, 3)):
+    for k in ((0, 1) if tier == "quick" else (0, 1, 2)):
         cs.append(Case(f"kl:maxitt{k}", h_kl, dict(maxitt=k), weight=10 * (k + 1)))
     cs.append(Case("iqr:equal", h_iqr, dict(maxitt=0, kind="equal")))
     for k in ((0, 1) if tier == "quick" else (0, 1, 2)):
@@ -385,7 +385,7 @@ def run(tier, seed, t0):
                    "tsdate.approx.approximate_gamma_mom", "tsdate.approx.approximate_gamma_kl",
                    "tsdate.approx.approximate_gamma_iqr"],
         bounds={"x": "all positive reals (pieces of the axis, each symbolic)",
-                "newton_iterations": "<= 2 quick, <= 4 (kl) / 3 (iqr) thorough: _KLMIN_MAXITT set in "
+                "newton_iterations": "<= 2 quick, <= 3 thorough (4 did not finish in 2400 s): _KLMIN_MAXITT set in "
                                      "the harness; the loop body is the same at every iteration",
                 "accuracy_budgets": {k: float(v) for k, v in BUDGET.items()}},
         stubs=["math.log/exp/lgamma, hypergeo._gammainc_inv/_gammainc_der uninterpreted (log with "
